@@ -202,3 +202,196 @@ Proof.
   - intros i p. unfold init, cursor. cbn. discriminate.
   - apply step_tstep in Hs. now apply (curle_step _ _ _ Hs).
 Qed.
+
+(* ------------------------------------------------------------------ what a finished call holds *)
+Definition holds_own (s : sys) (i : nat) : Prop :=
+  forall c, nth_error (callers s) i = Some c ->
+    match c_st c with
+    | CDone (ROk m) => answers m (c_serial c) = true /\ m_type m = TReturn
+    | CDone (RMethodErr m) => answers m (c_serial c) = true /\ m_type m = TError
+    | _ => True
+    end.
+
+Lemma res_of_own m serial : answers m serial = true ->
+  match res_of m with
+  | ROk m' => answers m' serial = true /\ m_type m' = TReturn
+  | RMethodErr m' => answers m' serial = true /\ m_type m' = TError
+  | _ => True
+  end.
+Proof.
+  intros Ha. unfold res_of. pose proof Ha as Ha'. unfold answers in Ha'. apply andb_true_iff in Ha'. destruct Ha' as [_ Hr].
+  destruct (m_type m) eqn:Et; cbn in Hr; try discriminate; split; auto.
+Qed.
+
+Lemma own_step s l s' : tstep s l s' -> (forall i, holds_own s i) -> forall j, holds_own s' j.
+Proof.
+  intros H IH j c' Hc'.
+  assert (Hupd : forall i c st, nth_error (callers s) i = Some c -> nth_error (upd (callers s) i (set_st c st)) j = Some c' ->
+            (j = i /\ c' = set_st c st) \/ (j <> i /\ nth_error (callers s) j = Some c')).
+  { intros i c st Hn Hj. destruct (Nat.eq_dec j i) as [->|Hne].
+    - erewrite nth_error_upd_same in Hj by eassumption. inversion Hj. now left.
+    - rewrite nth_error_upd_other in Hj by assumption. now right. }
+  destruct H; cbn [callers with_ch with_callers with_wlock with_wire with_reader with_socket finish] in Hc';
+    try (apply (IH j c' Hc'));
+    try (destruct (Hupd _ _ _ H Hc') as [[-> ->]|[Hne Hj]]; [cbn; try exact I | apply (IH j c' Hj)]).
+  apply res_of_own. assumption.
+Qed.
+
+Lemma own_inv cs cap t tr s : reach cs cap t tr s -> forall i, holds_own s i.
+Proof.
+  induction 1 as [|tr s l s' Hr IH Hs].
+  - intros i c Hc. unfold init in Hc. cbn in Hc. rewrite nth_error_map in Hc. destruct (nth_error cs i); [|discriminate].
+    cbn in Hc. inversion Hc. exact I.
+  - apply step_tstep in Hs. now apply (own_step _ _ _ Hs).
+Qed.
+
+(* ------------------------------------------------------------------ causality: nothing that carries the serial of an unsent
+   call is anywhere in the system *)
+Definition in_hand (s : sys) : list item := match reader s with RPush it _ => [it] | _ => [] end.
+Definition items (s : sys) : list item := log (ch s) ++ in_hand s ++ socket s.
+
+Lemma unsent_intro s i c : nth_error (callers s) i = Some c -> not_sent (c_st c) = true -> unsent s (c_serial c) = true.
+Proof.
+  intros Hn Hs. unfold unsent. apply existsb_exists. exists c. split; [eapply nth_error_In; eassumption|].
+  now rewrite N.eqb_refl, Hs.
+Qed.
+
+Lemma unsent_mono s l s' r : tstep s l s' -> unsent s' r = true -> unsent s r = true.
+Proof.
+  intros H Hu. destruct (tstep_callers _ _ _ H) as [E|(i & c & st' & Hn & E & Ha)]; unfold unsent in *; rewrite E in Hu; [exact Hu|].
+  apply existsb_exists in Hu. destruct Hu as (x & Hin & Hx). apply existsb_exists.
+  apply In_nth_error in Hin. destruct Hin as [j Hj]. destruct (Nat.eq_dec j i) as [->|Hne].
+  - erewrite nth_error_upd_same in Hj by eassumption. inversion Hj; subst x. cbn in Hx. exists c. split.
+    + eapply nth_error_In; eassumption.
+    + apply andb_true_iff in Hx. destruct Hx as [Hx1 Hx2]. rewrite Hx1. cbn. destruct Ha; cbn in *; congruence.
+  - rewrite nth_error_upd_other in Hj by assumption. exists x. split; [eapply nth_error_In; eassumption | exact Hx].
+Qed.
+
+Lemma items_step s l s' x : tstep s l s' -> In x (items s') -> In x (items s) \/ (l = LArrive x /\ causal_ok s x = true).
+Proof.
+  intros H. unfold items, in_hand.
+  destruct H; cbn [ch reader socket with_ch with_callers with_wlock with_wire with_reader with_socket finish];
+    rewrite ?log_subscribe, ?log_drop, ?log_close; try (intros Hin; left; exact Hin).
+  - apply try_recv_got in H1. destruct H1 as (p & _ & _ & Hl & _). rewrite Hl. tauto.
+  - apply try_recv_got in H1. destruct H1 as (p & _ & _ & Hl & _). rewrite Hl. tauto.
+  - apply try_recv_got in H1. destruct H1 as (p & _ & _ & Hl & _). rewrite Hl. tauto.
+  - rewrite H, H0. cbn. rewrite !in_app_iff. cbn. tauto.
+  - apply try_push_pushed in H0. destruct H0 as (Hl & _). rewrite H, Hl. rewrite !in_app_iff. cbn. tauto.
+  - rewrite H. rewrite !in_app_iff. cbn. tauto.
+  - rewrite H. rewrite !in_app_iff. cbn. tauto.
+  - rewrite H. rewrite !in_app_iff. cbn. tauto.
+  - rewrite !in_app_iff. cbn. intros [Hi|[Hi|[Hi|[E|[]]]]]; [tauto | tauto | tauto |]. subst it. right. split; [reflexivity | assumption].
+Qed.
+
+Definition causal (s : sys) : Prop := forall m r, In (IMsg m) (items s) -> m_rs m = Some r -> unsent s r = false.
+
+Lemma causal_inv cs cap t tr s : reach cs cap t tr s -> causal s.
+Proof.
+  induction 1 as [|tr s l s' Hr IH Hs].
+  - intros m r Hin. unfold items, init in Hin. cbn in Hin. destruct Hin.
+  - apply step_tstep in Hs. intros m r Hin Hrs.
+    destruct (unsent s' r) eqn:Eu; [|reflexivity]. pose proof (unsent_mono _ _ _ r Hs Eu) as Eu0.
+    destruct (items_step _ _ _ _ Hs Hin) as [Hin0|[_ Hc]].
+    + rewrite (IH _ _ Hin0 Hrs) in Eu0. discriminate.
+    + unfold causal_ok in Hc. rewrite Hrs, Eu0 in Hc. discriminate.
+Qed.
+
+(* ------------------------------------------------------------------ a waiting caller has missed nothing: no answer to it lies
+   behind its cursor *)
+Definition seen_ok (s : sys) : Prop :=
+  forall i c p q m, nth_error (callers s) i = Some c -> c_st c = CWaiting -> cursor (ch s) i = Some p -> q < p ->
+                    nth_error (log (ch s)) q = Some (IMsg m) -> answers m (c_serial c) = false.
+
+Lemma seen_step s l s' : tstep s l s' -> causal s -> (forall i p, cursor (ch s) i = Some p -> p <= tail (ch s)) ->
+  seen_ok s -> seen_ok s'.
+Proof.
+  intros H Hca Hle IH j c' p q m Hc' Hst Hcur Hq Hn.
+  assert (Hupd : forall i c st, nth_error (callers s) i = Some c -> nth_error (upd (callers s) i (set_st c st)) j = Some c' ->
+            (j = i /\ c' = set_st c st) \/ (j <> i /\ nth_error (callers s) j = Some c')).
+  { intros i c st Hn0 Hj. destruct (Nat.eq_dec j i) as [->|Hne].
+    - erewrite nth_error_upd_same in Hj by eassumption. inversion Hj. now left.
+    - rewrite nth_error_upd_other in Hj by assumption. now right. }
+  destruct H; cbn [callers ch with_ch with_callers with_wlock with_wire with_reader with_socket finish] in *;
+    rewrite ?log_subscribe, ?log_drop, ?log_close, ?cursor_close in *.
+  - (* sub *) destruct (Hupd _ _ _ H Hc') as [[-> ->]|[Hne Hj]]; [discriminate|].
+    rewrite cursor_subscribe in Hcur. destruct (cursor (ch s) j) as [p0|] eqn:E.
+    + inversion Hcur; subst p0. eapply IH; eauto.
+    + pose proof (rcv_step s (LSub i) _ (TSub s i c H H0)) as _. clear - E Hcur Hne. destruct (Nat.eqb i j) eqn:Eb; [|discriminate].
+      apply Nat.eqb_eq in Eb. congruence.
+  - (* lock *) destruct (Hupd _ _ _ H Hc') as [[-> ->]|[Hne Hj]]; [discriminate | eapply IH; eauto].
+  - (* send noreply *) destruct (Hupd _ _ _ H Hc') as [[-> ->]|[Hne Hj]]; [discriminate|].
+    rewrite cursor_drop_other in Hcur by assumption. eapply IH; eauto.
+  - (* send ok: the call is on the wire from now on; before, nothing could answer it *)
+    destruct (Hupd _ _ _ H Hc') as [[-> ->]|[Hne Hj]]; [|eapply IH; eauto].
+    cbn [c_serial set_st]. unfold answers. destruct (m_rs m) as [r|] eqn:Er; [|reflexivity].
+    destruct (N.eqb r (c_serial c)) eqn:Eq; [|reflexivity]. apply N.eqb_eq in Eq. subst r. exfalso.
+    assert (Hu : unsent s (c_serial c) = true) by (eapply unsent_intro; [eassumption | now rewrite H0]).
+    rewrite (Hca m (c_serial c)) in Hu; [discriminate | | assumption].
+    unfold items. apply in_app_iff. left. eapply nth_error_In; eassumption.
+  - (* send fail *) destruct (Hupd _ _ _ H Hc') as [[-> ->]|[Hne Hj]]; [discriminate|].
+    rewrite cursor_drop_other in Hcur by assumption. eapply IH; eauto.
+  - (* recv answer *) apply try_recv_got in H1. destruct H1 as (p0 & Hc0 & Hn0 & Hl & Hcl & Hci & Hco).
+    destruct (Hupd _ _ _ H Hc') as [[-> ->]|[Hne Hj]]; [discriminate|].
+    rewrite cursor_drop_other in Hcur by assumption. rewrite Hco in Hcur by assumption. rewrite Hl in Hn. eapply IH; eauto.
+  - (* recv skip *) apply try_recv_got in H1. destruct H1 as (p0 & Hc0 & Hn0 & Hl & Hcl & Hci & Hco). rewrite Hl in Hn.
+    destruct (Nat.eq_dec j i) as [->|Hne].
+    + rewrite Hci in Hcur. inversion Hcur; subst p. rewrite H in Hc'. inversion Hc'; subst c'.
+      destruct (Nat.eq_dec q p0) as [->|Hqp].
+      * rewrite Hn0 in Hn. inversion Hn; subst m0. assumption.
+      * eapply IH; eauto. lia.
+    + rewrite Hco in Hcur by assumption. eapply IH; eauto.
+  - (* recv fail *) apply try_recv_got in H1. destruct H1 as (p0 & Hc0 & Hn0 & Hl & Hcl & Hci & Hco).
+    destruct (Hupd _ _ _ H Hc') as [[-> ->]|[Hne Hj]]; [discriminate|].
+    rewrite cursor_drop_other in Hcur by assumption. rewrite Hco in Hcur by assumption. rewrite Hl in Hn. eapply IH; eauto.
+  - (* recv closed *) destruct (Hupd _ _ _ H Hc') as [[-> ->]|[Hne Hj]]; [discriminate|].
+    rewrite cursor_drop_other in Hcur by assumption. eapply IH; eauto.
+  - (* timeout *) destruct (Hupd _ _ _ H Hc') as [[-> ->]|[Hne Hj]]; [discriminate|].
+    rewrite cursor_drop_other in Hcur by assumption. eapply IH; eauto.
+  - eapply IH; eauto.
+  - (* push: behind the cursors nothing changes *)
+    apply try_push_pushed in H0. destruct H0 as (Hl & Hr & _). unfold cursor in Hcur. rewrite Hr in Hcur. fold (cursor (ch s) j) in Hcur.
+    rewrite Hl in Hn. pose proof (Hle _ _ Hcur) as Hp. unfold tail in Hp. rewrite nth_error_app1 in Hn by lia. eapply IH; eauto.
+  - eapply IH; eauto.
+  - eapply IH; eauto.
+  - eapply IH; eauto.
+  - eapply IH; eauto.
+Qed.
+
+Lemma seen_inv cs cap t tr s : reach cs cap t tr s -> seen_ok s.
+Proof.
+  induction 1 as [|tr s l s' Hr IH Hs].
+  - intros i c p q m _ _ Hc. unfold init, cursor in Hc. cbn in Hc. discriminate.
+  - pose proof (causal_inv _ _ _ _ _ Hr). pose proof (curle_inv _ _ _ _ _ Hr). apply step_tstep in Hs.
+    eapply seen_step; eauto.
+Qed.
+
+(* ------------------------------------------------------------------ NoReplyExpected calls never wait *)
+Lemma noreply_inv cs cap t tr s : reach cs cap t tr s ->
+  forall i c, nth_error (callers s) i = Some c -> c_kind c = KNoReply -> c_st c <> CWaiting.
+Proof.
+  induction 1 as [|tr s l s' Hr IH Hs].
+  - intros i c Hc _. unfold init in Hc. cbn in Hc. rewrite nth_error_map in Hc. destruct (nth_error cs i); [|discriminate].
+    inversion Hc. cbn. discriminate.
+  - apply step_tstep in Hs. intros j c' Hc' Hk.
+    assert (Hupd : forall i c st, nth_error (callers s) i = Some c -> nth_error (upd (callers s) i (set_st c st)) j = Some c' ->
+              (j = i /\ c' = set_st c st) \/ (j <> i /\ nth_error (callers s) j = Some c')).
+    { intros i c st Hn0 Hj. destruct (Nat.eq_dec j i) as [->|Hne].
+      - erewrite nth_error_upd_same in Hj by eassumption. inversion Hj. now left.
+      - rewrite nth_error_upd_other in Hj by assumption. now right. }
+    destruct Hs; cbn [callers with_ch with_callers with_wlock with_wire with_reader with_socket finish] in Hc';
+      try (eapply IH; eassumption);
+      try (destruct (Hupd _ _ _ H Hc') as [[-> ->]|[Hne Hj]]; [cbn; try discriminate | eapply IH; eassumption]).
+    cbn in Hk. congruence.
+Qed.
+
+(* ------------------------------------------------------------------ once the reader has failed, the channel is closed *)
+Lemma stopped_inv cs cap t tr s : reach cs cap t tr s -> reader s = RStopped -> closed (ch s) = true.
+Proof.
+  induction 1 as [|tr s l s' Hr IH Hs]; [discriminate|].
+  apply step_tstep in Hs.
+  destruct Hs; cbn [ch reader with_ch with_callers with_wlock with_wire with_reader with_socket finish];
+    rewrite ?closed_subscribe, ?closed_drop; try exact IH; try discriminate; try reflexivity.
+  - apply try_recv_got in H1. destruct H1 as (p0 & _ & _ & _ & Hcl & _). now rewrite Hcl.
+  - apply try_recv_got in H1. destruct H1 as (p0 & _ & _ & _ & Hcl & _). now rewrite Hcl.
+  - apply try_recv_got in H1. destruct H1 as (p0 & _ & _ & _ & Hcl & _). now rewrite Hcl.
+Qed.
